@@ -129,6 +129,41 @@ func genUUID(e *emitter, rng *rand.Rand, thorough bool) {
 		"ffffffff-ffff-4fff-bfff-ffffffffffff", "00000000-0000-1000-8000-000000000000",
 		"fffffffe-ffff-ffff-ffff-ffffffffffff", "00000000-0000-0000-0000-000000000001",
 		"ffffffff-ffff-ffff-ffff-fffffffffffg", "0000000000000000000000000000000000000")
+	// 36-byte inputs made of runes whose case folding changes their byte length (U+212A KELVIN SIGN: 3 -> 1,
+	// U+0130: 2 -> 1/3, U+023A: 2 -> 3), with '-' wherever the folded string would expect one
+	shr := []string{"\u212a", "\u0130", "\u023a", "\u1e9e", "K", "0", "f"}
+	for i := 0; i < 400; i++ {
+		var sb strings.Builder
+		folded := 0
+		for sb.Len() < 36 {
+			if folded == 8 || folded == 13 || folded == 18 || folded == 23 {
+				sb.WriteString("-")
+				folded++
+				continue
+			}
+			r := shr[rng.Intn(len(shr))]
+			if i < 40 {
+				r = shr[i%2] // mostly Kelvin signs / dotted I first
+				if i%5 == 0 {
+					r = "\u212a"
+				}
+			}
+			if sb.Len()+len(r) > 36 {
+				r = "0"
+			}
+			sb.WriteString(r)
+			folded++
+		}
+		e.emit(sb.String())
+	}
+	for _, fixed := range []string{
+		strings.Repeat("\u212a", 8) + "-" + strings.Repeat("\u212a", 3) + "\u0130",
+		strings.Repeat("\u212a", 8) + "-" + "\u212a" + "000-0000",
+		strings.Repeat("\u212a", 7) + "0-0000-0000-000",
+		strings.Repeat("\u212a", 12),
+	} {
+		e.emit(fixed)
+	}
 	for _, b := range bases {
 		e.emit(b)
 		e.emit(strings.ToUpper(b))
@@ -383,6 +418,21 @@ func genEmail(e *emitter, rng *rand.Rand, thorough bool) {
 					labels = append(labels, rep("abcdefghij", lab))
 				}
 				e.emit(rep("user", ll) + "@" + strings.Join(labels, "."))
+			}
+		}
+	}
+	// a single over-long label in first, middle or last position (the others short), 2..8 labels
+	for _, long := range []int{62, 63, 64, 65, 100, 200} {
+		for nl := 2; nl <= 8; nl++ {
+			for pos := 0; pos < nl; pos++ {
+				labels := make([]string, nl)
+				for i := range labels {
+					labels[i] = []string{"ab", "example", "co"}[i%3]
+				}
+				labels[pos] = rep("abcdefghij", long)
+				e.emit("user@" + strings.Join(labels, "."))
+				labels[pos] = rep("abc-efghij", long)
+				e.emit("u@" + strings.Join(labels, "."))
 			}
 		}
 	}
